@@ -35,7 +35,18 @@ func main() {
 	explain := flag.String("explain", "", "print a replay file")
 	list := flag.Bool("list", false, "list properties")
 	dump := flag.String("dump", "", "debug: pkg:Func[,mod] print SSA with value paths and edge conditions")
+	gen := flag.Bool("gen-names", false, "print the reviewed-names table (names.json) for the current tree")
 	flag.Parse()
+	if *gen {
+		frozenNames = map[string]fnNames{}
+		w, err := LoadWorld(*repo, modEngine, modAgg)
+		if err != nil {
+			fmt.Fprintln(os.Stderr, err)
+			os.Exit(2)
+		}
+		os.Stdout.Write(genNames(w))
+		return
+	}
 
 	if *explain != "" {
 		b, err := os.ReadFile(*explain)
